@@ -76,6 +76,31 @@ func opMiEnc(args []Sx) Sx {
 	return OkV(L(B(buf.Bytes()), B([]byte(dg))))
 }
 
+// countingReader is a plain source (no ReadByte, no Len) that counts what is taken from it
+type countingReader struct {
+	r io.Reader
+	n int
+}
+
+func (c *countingReader) Read(p []byte) (int, error) {
+	n, err := c.r.Read(p)
+	c.n += n
+	return n, err
+}
+
+// mi_new_consumed draft stream digest maxrs: how many bytes NewDecoder takes from a plain source: the 8-byte
+// record size and nothing more (a stream it refuses is refused before any record data is read), nothing at
+// all when the digest header does not parse
+func opMiNewConsumed(args []Sx) Sx {
+	src := &countingReader{r: bytes.NewReader(args[1].B)}
+	_, err := draftOf(args[0]).NewDecoder(src, string(args[2].B), args[3].U64())
+	tag := "ok"
+	if err != nil {
+		tag = "err"
+	}
+	return L(Sym(tag), Zi(int64(src.n)))
+}
+
 func opMiDec(args []Sx) Sx {
 	enc := draftOf(args[0])
 	stream, digest, maxrs := args[1].B, string(args[2].B), args[3].U64()
@@ -211,5 +236,6 @@ func init() {
 	regOp("b64", opB64)
 	regOp("mi_enc", opMiEnc)
 	regOp("mi_dec", opMiDec)
+	regOp("mi_new_consumed", opMiNewConsumed)
 	regOp("mi_dec_retry", opMiDecRetry)
 }
